@@ -10,6 +10,11 @@
 (*   ev.heap  observed [k, c, v] of EVERY live object after the call         *)
 (*   ev.dmiss pairs (i, j), i == j observed, where j is not found in a dict   *)
 (*            / set keyed by i                                                *)
+(*   ev.held  for a resulting SET: per class the identity tokens of the live *)
+(*            objects its constituent IS (i = namespace #i, -(16*s+k) = the   *)
+(*            object set #s holds for k); <<>> for a namespace result         *)
+(*   ev.uh    ids whose hash() raises TypeError;  ev.err = "" or which of     *)
+(*            "eq" / "contains" / "hash" raised an exception on live objects  *)
 (*   ev.eq / ev.heq / ev.ct / ev.gi   observed ==, hash-equality, `in`,      *)
 (*            set[cls] outcomes over all live objects;  ev.bad = pairs where *)
 (*            == is not symmetric / reflexive / the negation of !=           *)
@@ -41,9 +46,9 @@ WellTyped(h, op) ==
                \/ i < 0 /\ ra(RefRa(i)) /\ RefK(i) \in AMRO(T, h[RefRa(i)].c)
       cl(c) == c \in 0..NCls(T)
   IN /\ op.op \in OpNames
-     /\ \A i \in DOMAIN op.kw : Len(op.kw[i]) = 2 /\ op.kw[i][1] \in 1..3 /\ op.kw[i][2] \in {0, 1}
+     /\ \A i \in DOMAIN op.kw : Len(op.kw[i]) = 2 /\ op.kw[i][1] \in 1..3 /\ op.kw[i][2] \in Vals
      /\ \A i \in DOMAIN op.nss : ns(op.nss[i])
-     /\ CASE op.op = "NsNew" -> op.cls \in T.has /\ op.b \in {0, 1}
+     /\ CASE op.op = "NsNew" -> op.cls \in T.has /\ op.b \in {0, 1, 2}
           [] op.op \in {"NsUpdate", "Pos"} -> ns(op.a)
           [] op.op = "New" -> cl(op.cls) /\ (op.a = 0 \/ ra(op.a))
           [] op.op = "UpdateNs" -> ra(op.a) /\ Len(op.nss) >= 1
@@ -71,15 +76,24 @@ Clause(h, ev) ==
     THEN "trace-malformed: result id"
   ELSE IF e.rej = {} /\ ~fresh /\ Proj(h[ev.rid]) # Proj(e.rec)
     THEN "alias:" \o name \o ": returned an existing object that does not have the required value"
+  ELSE IF e.rej = {} /\ e.hold # <<>> /\ Len(ev.held) # Len(e.hold)
+    THEN "trace-malformed: held"
+  ELSE IF e.rej = {} /\ e.hold # <<>>
+          /\ \E k \in DOMAIN e.hold : e.hold[k] # 0 /\ e.hold[k] \notin Range(ev.held[k])
+    THEN "holds:" \o name \o ": the set does not hold the namespace OBJECT given for a class (last one given, else the initial set's) but another one"
   ELSE IF Len(ev.heap) # Len(h2)
     THEN "trace-malformed: heap length"
   ELSE IF e.rej = {} /\ fresh /\ ev.heap[ev.rid] # Proj(e.rec)
     THEN "value:" \o name \o ": result differs from (last namespace given, else initial set's, else default)"
   ELSE IF \E i \in 1..Len(h) : ev.heap[i] # Proj(h[i])
     THEN "mutated:" \o name \o ": an existing object changed"
+  ELSE IF ev.err # ""
+    THEN ev.err \o "-raises: comparing / looking up objects with legal field values raised"
   ELSE IF eqs # EqPairs(h2)
     THEN "eq: == disagrees with (same class and equal values)"
-  ELSE IF ~(EqPairs(h2) \subseteq heqs)
+  ELSE IF Range(ev.uh) # Unhashables(h2)
+    THEN "hashability: hash() must raise TypeError iff a field value is unhashable"
+  ELSE IF ~(HashEqPairs(h2) \subseteq heqs)
     THEN "hash-law: equal objects hash differently"
   ELSE IF ev.dmiss # <<>>
     THEN "dict-lookup: an equal object is not found as dict key / set member"
